@@ -201,3 +201,44 @@ def check_C04(ctx):
             "selection, every PDF word bit, metadata, options, windows, engine defaults compared with the specification. "
             "I->S: selections of the bundled voice on random labels recomputed in TLA+ from the file's tokenized text",
             {"distinct_tree_pdf_pairs_selected": len(sel)})
+
+
+# --------------------------------------------------------------------------- C08 / C09
+
+def _dur_key(c):
+    return json.dumps([c["kind"], c["m"], c["v"], c.get("p"), c.get("q"), c.get("times"), c.get("nstate")])
+
+
+def check_C08(ctx):
+    q = ctx.quick()
+    mc(ctx, "Duration", S("mc", "MC_Duration_thorough.cfg"), S("mc", "MC_Duration.tla"), workers=12)
+    cases = gen(ctx, "Duration_create", S("gen", "Gen_Duration_create.cfg" if q else "Gen_Duration_create_thorough.cfg"),
+                S("gen", "Gen_Duration.tla"), workers=8)
+    nties = sum(1 for c in cases if len(c["set"]) > 1)
+    replay_stage(ctx, "create", "dur-replay", cases, distinct_key=_dur_key)
+    ctx.stage("tie coverage", cases_with_several_allowed_results=nties)
+    tp = record_stage(ctx, "durations", "dur-record", [ctx.seed, 150 if q else 3000, "speed"])
+    trace_stage(ctx, "duration", S("trace", "Trace_Duration.cfg"), S("trace", "Trace_Duration.tla"), tp, reset_ev="pset")
+    ctx.assumptions += ["S->I parameters are multiples of 1/4 (exact in f32/f64); speeds dyadic",
+                        "I->S speeds are multiples of 1/1024 so that round(F1/speed) is decided exactly in TLA+; means logged in 1e-6 units"]
+    return ("model_checking",
+            "S->I: all parameter sequences of 1..3 states over the mean/variance tables x 10 speeds, result must be in the "
+            "specification's result set (set-valued at exact ties); I->S: random sequences of 1..200 states and bundled-voice "
+            "utterances, speeds in [0.1,50]: speed-1 law, exact-total law, one-frame floor, monotonicity along the speed sweep",
+            {"cases_with_ties": nties})
+
+
+def check_C09(ctx):
+    q = ctx.quick()
+    mc(ctx, "Align", S("mc", "MC_Align_quick.cfg" if q else "MC_Align.cfg"), S("mc", "MC_Align.tla"), workers=12)
+    cases = gen(ctx, "Duration_align", S("gen", "Gen_Duration_align.cfg" if q else "Gen_Duration_align_thorough.cfg"),
+                S("gen", "Gen_Duration.tla"), workers=8)
+    replay_stage(ctx, "align", "dur-replay", cases, distinct_key=_dur_key)
+    tp = record_stage(ctx, "alignments", "dur-record", [ctx.seed, 120 if q else 2500, "align"])
+    trace_stage(ctx, "alignment", S("trace", "Trace_Duration.cfg"), S("trace", "Trace_Duration.tla"), tp, reset_ev="pset")
+    ctx.assumptions += ["S->I times are multiples of 1/4 frame; I->S: candidate sets for round(end x rate/(fperiod x 1e7)) are computed by the harness in exact 128-bit rational arithmetic (trusted actuation function)"]
+    return ("model_checking",
+            "S->I: every annotation pattern of 0..3 labels x {1,2} states over start/end tables (incl. unknown, zero-length, "
+            "non-monotone) through Labels::new + create_with_alignment, group-wise membership in the specification's result sets; "
+            "I->S: corpus utterances with random string annotations through Labels::load_from_strings, the estimator and Engine::synthesize",
+            {})
